@@ -19,5 +19,5 @@ for d in /verif/seeded/*/; do
     nv=$(echo "$out" | grep -c '^VIOLATION')
     if [ $rc -eq 1 ]; then echo "$n $p seed=$s rc=$rc $nv violations"; else echo "$n $p seed=$s rc=$rc MISSED"; fi
   done
-  git checkout -- .
+  git checkout -- . && git clean -fdq BPTK_Py
 done
